@@ -6,11 +6,11 @@ import obs
 
 ID = "C13"
 VALIDATE_MIX = True
-REQUIRES = ["Agree", "C13Spec", "C13Proof", "Truth"]
+REQUIRES = ["ObsCheck", "Agree", "C13Spec", "C13Proof", "Truth"]
 THEOREM_REQUIRES = ["C13"]
-THEOREMS = ["C13_holds_bool"]
+THEOREMS = ["C13_holds_bool", "C13_holds"]
 PROOF_FILES = ["Proofs/GenInv.v", "Proofs/Traversal.v", "Proofs/StageMap.v", "Proofs/C03Link.v",
-               "Proofs/C13Proof.v", "Properties/C13.v"]
+               "Proofs/C13Proof.v", "Proofs/C13Obs.v", "Properties/C13.v"]
 RULE = ("call-graph programs (as in C03) with and without a push constant variable of type scalar / vec3 / vec4 / "
         "mat2x2 / mat3x3 / mat4x4 / padded structs / arrays, used from entry points directly, through helpers, or not at "
         "all; ground truth: WGSL size from a hand table, stages from the Python closure, 'all entry stages' fallback "
@@ -59,12 +59,25 @@ def run_cases(plain, cases_, workdir, tag):
     return obs.attach(plain, cases_, workdir, tag, lambda c: True, 40 if "search" not in tag else 0)
 
 
+def coq_obs_clause(r, real):
+    """Coq-evaluated: Spec/Obs.v's reading of the extracted output (the ranges create_pipeline_layout hands to the device,
+    PUSH_CONSTANT_STAGES resolved to the constant's value) = what the compiled module recorded on the shim"""
+    o = r["obs"]
+    pl = (o["device_log"].get("pipeline_layout") or {})
+    ranges = pl.get("push_constant_ranges", [])
+    bits = o.get("push_constant_stages")
+    return "obs_pc_ok %s %s [%s]" % (real, "None" if bits is None else "(Some %d%%N)" % bits,
+                                    "; ".join("(%d%%N, %d%%N, %d%%N)" % (x.get("stages", 0), x.get("start", 0), x.get("end", 0)) for x in ranges))
+
+
 def verdict_expr(c, r, ir, real):
     ob = "true"
     if "obs" in r and r.get("result") == "ok":
         ok, why = obs.check_c13(c["truth"], r) if obs.usable(r) else (False, "module did not build / run on the shim: %s" % str(r.get("obs"))[:300])
         c["note"] = why
         ob = "true" if ok else "false"
+        if obs.usable(r):
+            ob += " && " + coq_obs_clause(r, real)
     return _verdict(c, r, ir, real).replace("OBS", ob)
 
 
